@@ -223,4 +223,7 @@ def run(ctx) -> None:
     chain(ctx)
     perftrack(ctx)
     C13.bracket(ctx)
+    # 'or no state': a trained but falsy state (0.0, {}, False) exported as the empty state is skipped at load - the applied
+    # actor gets no state and an incremental re-train starts from None (seed C04-r11)
+    C13.trained_marker(ctx)
     shared.argname_scope(ctx, ('forml.runtime._agent', 'forml.runtime._pad', 'forml.io.asset', 'forml.flow._suite', 'forml.evaluation._stage', 'forml.provider.runner'), floor=2)
